@@ -1,8 +1,11 @@
 # DELTA_BINARY_PACKED / DELTA_LENGTH_BYTE_ARRAY / DELTA_BYTE_ARRAY  (C08 decoders, C11/C12 encoder side)
 BITPACK_STUB = 'stubs/delta_stubs.c: carquet_bitunpack_32 / carquet_bitpack_32 as assumed contracts ' \
                '(reads/writes ceil(count/8)*bit_width bytes, count uint32 values; proved on the real bitpack.c by the bitpack family)'
-D8 = dict(overlays=['contracts/delta.ovl'], harness='harness/C08/delta.c', prop='C08', includes=['.', 'src'],
+D8 = dict(overlays=['contracts/delta.ovl', 'contracts/delta_length.ovl', 'contracts/delta_strings.ovl'], harness='harness/C08/delta.c', prop='C08', includes=['.', 'src'],
           extra_sources=['stubs/mem_stubs.c', 'stubs/delta_stubs.c'], wip=True)
+CHK = ['--bounds-check', '--pointer-check', '--div-by-zero-check', '--signed-overflow-check', '--undefined-shift-check']
+OVL3 = ['contracts/delta.ovl', 'contracts/delta_length.ovl', 'contracts/delta_strings.ovl']
+D8S = dict(D8, overlays=OVL3)
 
 JOBS = [
     dict(name='c08_delta_read_uleb128', entry='h_read_uleb128', enforce='read_uleb128', min_loop_obligations=1, **D8),
@@ -17,4 +20,18 @@ JOBS = [
          replace=['delta_decoder_init', 'delta_decoder_next'], min_loop_obligations=1, **D8),
     dict(name='c08_delta_decode_int64', entry='h_decode_int64', enforce='carquet_delta_decode_int64',
          replace=['delta_decoder_init', 'delta_decoder_next'], min_loop_obligations=1, **D8),
+    dict(name='c08_delta_length_decode', entry='h_delta_length_decode', enforce='carquet_delta_length_decode',
+         replace=['carquet_delta_decode_int32'], min_loop_obligations=2,
+         checks=CHK + ['--memory-leak-check'], **D8S),
+    dict(name='c08_delta_length_decode_oom', entry='h_delta_length_decode', enforce='carquet_delta_length_decode',
+         replace=['carquet_delta_decode_int32'], min_loop_obligations=2, tier='thorough', defines=['CQV_OOM=1'],
+         checks=CHK + ['--memory-leak-check'], cbmc_flags=['--malloc-may-fail', '--malloc-fail-null'], **D8S),
+    dict(name='c08_delta_strings_decode', entry='h_delta_strings_decode', enforce='carquet_delta_strings_decode',
+         replace=['carquet_delta_decode_int32'], level='bounded', bound='num_values <= 3 strings (all bytes, all sizes)',
+         defines=['CQV_NMAX=1'], unwindset=['carquet_delta_strings_decode.0:2', 'carquet_delta_strings_decode.1:2'],
+         checks=CHK + ['--memory-leak-check'], **D8S),
+    dict(name='c08_delta_strings_decode_oom', entry='h_delta_strings_decode', enforce='carquet_delta_strings_decode',
+         replace=['carquet_delta_decode_int32'], level='bounded', bound='num_values <= 3 strings (all bytes, all sizes)',
+         defines=['CQV_NMAX=3', 'CQV_OOM=1'], unwindset=['carquet_delta_strings_decode.0:4', 'carquet_delta_strings_decode.1:4'],
+         tier='thorough', checks=CHK + ['--memory-leak-check'], cbmc_flags=['--malloc-may-fail', '--malloc-fail-null'], **D8S),
 ]
